@@ -37,6 +37,7 @@ def run(ctx):
     ix = ctx.index
     ctx.guard(rule_a, ctx, ix)
     ctx.guard(rule_b, ctx, ix)
+    ctx.guard(rule_b2, ctx, ix)
     ctx.guard(rule_c, ctx, ix)
     ctx.guard(rule_d, ctx, ix)
     ctx.guard(rule_e, ctx, ix)
@@ -242,6 +243,54 @@ def rule_b(ctx, ix):
         seen.add((construct, text))
         ctx.ob(R, construct, 'child mask requested with the same (data, view): %s' % text, ok,
                detail='child mask is not requested with exactly the caller\'s (data, view): %s' % text)
+
+
+def rule_b2(ctx, ix):
+    """A composite evaluates only its own operands: every to_mask() it calls is on state1 / state2 / an element of states."""
+    R = 'C01.b'
+    from ..flow import Flow
+    for cname in ('CompositeSubsetState', 'InvertState', 'MultiOrState'):
+        c = ix.cls('%s.%s' % (SUBSET, cname))
+        m = c.members.get('to_mask')
+        if m is None or m.func is None:
+            continue
+        f = m.func
+        s = f.self_name
+
+        def classify(expr, state, s=s):
+            tags = set()
+            for n in ast.walk(expr):
+                if isinstance(n, ast.Attribute) and isinstance(n.value, ast.Name) and n.value.id == s and n.attr in ('state1', 'state2', 'states'):
+                    tags.add('operand')
+                elif isinstance(n, ast.Name) and n.id in state:
+                    tags |= state[n.id]
+            if isinstance(expr, ast.Call) and ix.resolve_class(f.module, expr.func) is not None:
+                return {'constructed'}
+            return tags
+        sites = []
+
+        def on_stmt(st, state):
+            exprs = [st]
+            if isinstance(st, (ast.If, ast.While)):
+                exprs = [st.test]
+            elif isinstance(st, ast.For):
+                exprs = [st.iter]
+            for e in exprs:
+                for n in ast.walk(e):
+                    if isinstance(n, ast.Call) and isinstance(n.func, ast.Attribute) and n.func.attr == 'to_mask':
+                        sites.append((n, classify(n.func.value, state)))
+        Flow(classify, on_stmt=on_stmt).run(f.node, {})
+        seen = set()
+        for call, tags in sites:
+            if id(call) in seen:
+                continue
+            seen.add(id(call))
+            ctx.ob(R, f.construct, 'the mask requested by `%s` is that of an operand of the composite' % norm(call)[:60],
+                   {t for t in tags if not t.startswith('<')} == {'operand'},
+                   detail='%s evaluates `%s`, whose receiver is %s rather than one of the composite\'s own operands: the composite '
+                          'no longer combines the masks of its parts (e.g. a comparison re-evaluated with the opposite operator instead '
+                          'of negating its mask treats NaN differently)' % (f.construct, norm(call), sorted(tags) or 'unknown'),
+                   where=where(f, call))
 
 
 # ---------------------------------------------------------------------------------------
